@@ -113,7 +113,33 @@ class _CanonBranches(ast.NodeTransformer):
         return n
 
 
+class _CanonAssigns(ast.NodeTransformer):
+    """`a, b = x, y` (plain names, no right-hand element reads a target) is read as `a = x; b = y`: how many statements a value is spread over is not a fact
+    about the program."""
+    def generic_visit(self, node):
+        super().generic_visit(node)
+        for f in ('body', 'orelse', 'finalbody'):
+            v = getattr(node, f, None)
+            if isinstance(v, list) and v and isinstance(v[0], ast.stmt):
+                out = []
+                for st in v:
+                    if isinstance(st, ast.Assign) and len(st.targets) == 1 and isinstance(st.targets[0], ast.Tuple) and isinstance(st.value, ast.Tuple) \
+                            and len(st.targets[0].elts) == len(st.value.elts) and all(isinstance(t, ast.Name) for t in st.targets[0].elts):
+                        # sequential assignment equals the simultaneous one when no value reads a target assigned BEFORE it (a value may read its own target)
+                        tg, vs = st.targets[0].elts, st.value.elts
+                        safe = len({t.id for t in tg}) == len(tg) and not any(
+                            isinstance(n, ast.Name) and n.id in {t.id for t in tg[:j]} for j, e in enumerate(vs) for n in ast.walk(e))
+                        if safe:
+                            for t, e in zip(tg, vs):
+                                out.append(ast.copy_location(ast.Assign([t], e), e))
+                            continue
+                    out.append(st)
+                setattr(node, f, out)
+        return node
+
+
 def _canonical_branches(tree):
+    tree = _CanonAssigns().visit(tree)
     return ast.fix_missing_locations(_CanonBranches().visit(tree))
 
 
